@@ -1104,3 +1104,87 @@ func checkNoBlindConsumer(c *Ctx, r *Report, rule string) {
 		r.OK(rule, "library consumers of the queue", "-", "no library function calls Channel.ReadAll: every wait goes through Channel.Read, which tests the exited flag")
 	}
 }
+
+// ---- recognisers for one-level helper extraction ----------------------------------------------------------
+
+// pollHelper: callee is a small library function that does nothing but poll a channel without blocking and report
+// whether something was received: `select { case <-X: return true; default: return false }`. Returns the field the
+// channel is loaded from ("" + isCtx for ctx.Done()).
+func pollHelper(callee *ssa.Function) (field *types.Var, isCtx bool, ok bool) {
+	if callee == nil || callee.Blocks == nil || len(callee.Blocks) > 8 {
+		return nil, false, false
+	}
+	res := callee.Signature.Results()
+	if res.Len() != 1 {
+		return nil, false, false
+	}
+	if b, isB := res.At(0).Type().Underlying().(*types.Basic); !isB || b.Kind() != types.Bool {
+		return nil, false, false
+	}
+	var sel *ssa.Select
+	other := false
+	allInstrs(callee, func(in ssa.Instruction) {
+		switch x := in.(type) {
+		case *ssa.Select:
+			if sel != nil {
+				other = true
+			}
+			sel = x
+		case *ssa.Call, *ssa.Go, *ssa.Defer, *ssa.Send, *ssa.Store, *ssa.MapUpdate:
+			if call, isCall := x.(*ssa.Call); isCall && call.Call.IsInvoke() && call.Call.Method.Name() == "Done" && isContextType(call.Call.Value.Type()) {
+				return
+			}
+			other = true
+		}
+	})
+	if sel == nil || other || sel.Blocking || len(sel.States) != 1 || sel.States[0].Dir != types.RecvOnly {
+		return nil, false, false
+	}
+	// true is returned exactly where the receive fired
+	recv := selectRecvBlocks(callee)
+	good := true
+	allInstrs(callee, func(in ssa.Instruction) {
+		if ret, isRet := in.(*ssa.Return); isRet {
+			b, isConst := constBool(ret.Results[0])
+			if !isConst || b != recv[ret.Block()] {
+				good = false
+			}
+		}
+	})
+	if !good {
+		return nil, false, false
+	}
+	ch := sel.States[0].Chan
+	if call, isCall := ch.(*ssa.Call); isCall && call.Call.IsInvoke() && call.Call.Method.Name() == "Done" && isContextType(call.Call.Value.Type()) {
+		return nil, true, true
+	}
+	if f, _, _ := chanOrigin(ch); f != nil {
+		return f, false, true
+	}
+	return nil, false, false
+}
+
+// helperReceivesFrom: callee is a small function whose select (or plain receive) takes from the channel held in field.
+func helperReceivesFrom(callee *ssa.Function, field *types.Var) bool {
+	if callee == nil || callee.Blocks == nil || len(callee.Blocks) > 10 {
+		return false
+	}
+	found := false
+	allInstrs(callee, func(in ssa.Instruction) {
+		switch x := in.(type) {
+		case *ssa.Select:
+			for _, st := range x.States {
+				if f, _, _ := chanOrigin(st.Chan); f == field && st.Dir == types.RecvOnly {
+					found = true
+				}
+			}
+		case *ssa.UnOp:
+			if x.Op == token.ARROW {
+				if f, _, _ := chanOrigin(x.X); f == field {
+					found = true
+				}
+			}
+		}
+	})
+	return found
+}
